@@ -69,6 +69,29 @@ func canonWrite(sb *strings.Builder, v reflect.Value, o *canonOpts) {
 		case "BasicLit":
 			sb.WriteString(canonLit(v.FieldByName("Value").String()))
 			return
+		case "SelectorExpr":
+			// the selected name is a field or method, never a local: it is not renamed
+			sb.WriteString("Sel{")
+			canonWrite(sb, v.FieldByName("X"), o)
+			sb.WriteString(" . ")
+			if sel := v.FieldByName("Sel"); sel.IsValid() && !sel.IsNil() {
+				sb.WriteString(sel.Elem().FieldByName("Name").String())
+			}
+			sb.WriteString("}")
+			return
+		case "KeyValueExpr":
+			// a bare identifier key may be a field name: printed as written
+			sb.WriteString("KV{")
+			k := v.FieldByName("Key")
+			if k.IsValid() && !k.IsNil() && k.Elem().Kind() == reflect.Ptr && k.Elem().Elem().Type().Name() == "Ident" {
+				sb.WriteString(k.Elem().Elem().FieldByName("Name").String())
+			} else {
+				canonWrite(sb, k, o)
+			}
+			sb.WriteString(" : ")
+			canonWrite(sb, v.FieldByName("Value"), o)
+			sb.WriteString("}")
+			return
 		case "ParenExpr":
 			canonWrite(sb, v.FieldByName("X"), o)
 			return
@@ -142,6 +165,102 @@ func canonWrite(sb *strings.Builder, v reflect.Value, o *canonOpts) {
 	default:
 		fmt.Fprint(sb, v.Interface())
 	}
+}
+
+// canonLocals returns a renaming of the names a function declares itself (parameters, results, `:=` and var
+// declarations, range variables) to positional names, in order of declaration. Printing both sides of a comparison
+// under their own renaming makes the comparison insensitive to what locals are called.
+func canonLocals(pre map[string]string, nodes ...any) map[string]string {
+	ren := map[string]string{}
+	for k, v := range pre {
+		ren[k] = v
+	}
+	n := 0
+	add := func(id reflect.Value) {
+		for id.IsValid() && (id.Kind() == reflect.Ptr || id.Kind() == reflect.Interface) {
+			if id.IsNil() {
+				return
+			}
+			id = id.Elem()
+		}
+		if !id.IsValid() || id.Kind() != reflect.Struct || id.Type().Name() != "Ident" {
+			return
+		}
+		name := id.FieldByName("Name").String()
+		if name == "_" || name == "" {
+			return
+		}
+		if _, ok := ren[name]; !ok {
+			n++
+			ren[name] = fmt.Sprintf("$%d", n)
+		}
+	}
+	addAll := func(list reflect.Value) {
+		for list.IsValid() && (list.Kind() == reflect.Ptr || list.Kind() == reflect.Interface) {
+			if list.IsNil() {
+				return
+			}
+			list = list.Elem()
+		}
+		if list.IsValid() && list.Kind() == reflect.Slice {
+			for i := 0; i < list.Len(); i++ {
+				add(list.Index(i))
+			}
+		}
+	}
+	var walk func(v reflect.Value)
+	walk = func(v reflect.Value) {
+		if !v.IsValid() {
+			return
+		}
+		switch v.Kind() {
+		case reflect.Interface, reflect.Ptr:
+			if !v.IsNil() {
+				walk(v.Elem())
+			}
+		case reflect.Slice:
+			for i := 0; i < v.Len(); i++ {
+				walk(v.Index(i))
+			}
+		case reflect.Struct:
+			t := v.Type()
+			switch t.Name() {
+			case "Field", "ValueSpec":
+				addAll(v.FieldByName("Names"))
+			case "AssignStmt":
+				if fmt.Sprint(v.FieldByName("Tok").Interface()) == ":=" {
+					addAll(v.FieldByName("Lhs"))
+				}
+			case "RangeStmt":
+				if fmt.Sprint(v.FieldByName("Tok").Interface()) == ":=" {
+					add(v.FieldByName("Key"))
+					add(v.FieldByName("Value"))
+				}
+			case "StructType", "InterfaceType":
+				return // field and method names are not locals
+			}
+			for i := 0; i < t.NumField(); i++ {
+				f := t.Field(i)
+				if !f.IsExported() || canonSkipField[f.Name] || f.Type.Name() == "Pos" || f.Type.Name() == "Token" {
+					continue
+				}
+				switch f.Type.Kind() {
+				case reflect.Interface, reflect.Ptr, reflect.Slice:
+					walk(v.Field(i))
+				}
+			}
+		}
+	}
+	for _, nd := range nodes {
+		walk(reflect.ValueOf(nd))
+	}
+	return ren
+}
+
+// canonFunc prints a function's signature and body with its locals renamed positionally.
+func canonFunc(typ, body any, pre map[string]string) string {
+	o := &canonOpts{Rename: canonLocals(pre, typ, body)}
+	return canonAST(typ, o) + "\n" + canonAST(body, o)
 }
 
 // canonLit normalises literal spellings that mean the same value in both languages.
